@@ -7,7 +7,7 @@
     slot policy, whether the model can shift, whether the cache can erase partially / resume, and the EOS token;
     [parallel] is the number of slots.  All of these are universally quantified. *)
 From Coq Require Import List ZArith Bool Arith Lia.
-From V Require Import Slots.Model Slots.ProofsKv Slots.ProofsSlots Slots.ProofsBatch Slots.ProofsRef Slots.ProofsNoFail.
+From V Require Import Slots.Model Slots.ProofsKv Slots.ProofsSlots Slots.ProofsBatch Slots.ProofsRef Slots.ProofsNoFail Slots.ProofsTerm.
 Import ListNotations.
 Open Scope Z_scope.
 
@@ -69,7 +69,7 @@ Theorem C07_model_sees_effective_input :
   forall (F : list (Z * tok) -> tok) cfg parallel ops,
     1 <= numCtx cfg ->
     let st := run F cfg (init parallel) ops in
-    forall r W0 keep, In (EvSubmit r W0 keep) (log st) ->
+    forall r W0 keep np stops, In (EvSubmit r W0 keep np stops) (log st) ->
       forall j t vis, nth_error (samples_of r (log st)) j = Some (t, vis) ->
         vis = enumerate 0 (ref_win F cfg keep W0 j) /\ t = F vis.
 Proof.
@@ -81,7 +81,7 @@ Theorem C07_submit_records_request :
   forall cfg st prompt np keep stops idx,
     snd (submit cfg st prompt np keep stops) = RSubmitted idx ->
     exists inputs keep', new_sequence cfg prompt keep = Ok (inputs, keep') /\
-      log (fst (submit cfg st prompt np keep stops)) = log st ++ [EvSubmit (nreq st) inputs keep'].
+      log (fst (submit cfg st prompt np keep stops)) = log st ++ [EvSubmit (nreq st) inputs keep' np stops].
 Proof. exact submit_logs. Qed.
 Print Assumptions C07_submit_records_request.
 
@@ -90,21 +90,42 @@ Print Assumptions C07_submit_records_request.
     slots - are given the same tokens, position by position, from the same visible histories. *)
 Theorem C07_same_as_fresh :
   forall (F : list (Z * tok) -> tok) cfg, 1 <= numCtx cfg ->
-    forall parallel ops parallel' ops' r r' W0 keep,
+    forall parallel ops parallel' ops' r r' W0 keep np stops np' stops',
       let st := run F cfg (init parallel) ops in
       let st' := run F cfg (init parallel') ops' in
-      In (EvSubmit r W0 keep) (log st) -> In (EvSubmit r' W0 keep) (log st') ->
+      In (EvSubmit r W0 keep np stops) (log st) -> In (EvSubmit r' W0 keep np' stops') (log st') ->
       forall j t vis t' vis',
         nth_error (samples_of r (log st)) j = Some (t, vis) ->
         nth_error (samples_of r' (log st')) j = Some (t', vis') ->
         t = t' /\ vis = vis'.
 Proof.
-  intros F cfg Hc parallel ops parallel' ops' r r' W0 keep st st' H1 H2 j t vis t' vis' E1 E2.
-  destruct (C07_model_sees_effective_input F cfg parallel ops Hc r W0 keep H1 j t vis E1) as [A1 A2].
-  destruct (C07_model_sees_effective_input F cfg parallel' ops' Hc r' W0 keep H2 j t' vis' E2) as [B1 B2].
+  intros F cfg Hc parallel ops parallel' ops' r r' W0 keep np stops np' stops' st st' H1 H2 j t vis t' vis' E1 E2.
+  destruct (C07_model_sees_effective_input F cfg parallel ops Hc r W0 keep np stops H1 j t vis E1) as [A1 A2].
+  destruct (C07_model_sees_effective_input F cfg parallel' ops' Hc r' W0 keep np' stops' H2 j t' vis' E2) as [B1 B2].
   subst. auto.
 Qed.
 Print Assumptions C07_same_as_fresh.
+
+(** ... and they end at the same point: if a request has finished in one history (EOS, stop sequence or numPredict)
+    after n tokens, the same request (same effective input, numPredict and stop sequences) in any other history -
+    e.g. alone on a fresh runner - never gets more than n tokens, and if it has finished there too it got exactly n
+    and finished for the same reason.  ([nsamples r l] = number of tokens sampled for request r in log l.) *)
+Theorem C07_same_length_as_fresh :
+  forall (F : list (Z * tok) -> tok) cfg, 1 <= numCtx cfg ->
+    forall parallel ops parallel' ops' r r' W0 keep np stops rs,
+      let st := run F cfg (init parallel) ops in
+      let st' := run F cfg (init parallel') ops' in
+      In (EvSubmit r W0 keep np stops) (log st) -> In (EvSubmit r' W0 keep np stops) (log st') ->
+      In (EvDone r rs) (log st) ->
+      (nsamples r' (log st') <= nsamples r (log st))%nat /\
+      (forall rs', In (EvDone r' rs') (log st') -> nsamples r' (log st') = nsamples r (log st) /\ rs' = rs).
+Proof.
+  intros F cfg Hc parallel ops parallel' ops' r r' W0 keep np stops rs st st' H1 H2 Hd.
+  destruct (reachable_inv2 F cfg parallel ops Hc) as (_ & _ & I1 & _).
+  destruct (reachable_inv2 F cfg parallel' ops' Hc) as (_ & _ & I2 & _).
+  eapply (same_end F cfg st st'); eauto; apply reachable_inv3; auto.
+Qed.
+Print Assumptions C07_same_length_as_fresh.
 
 (** non-vacuity: the history that exposes the pinned defect (fork a prefix into the second slot, overflow the fork so
     that the shift fails on shared cells and the inputs are reprocessed), with the harness's network: request 1 is
@@ -114,13 +135,15 @@ Definition ex_ops : list op :=
   [Submit [1;2;3;4;5;0] 1 0 []; Step; Step; Submit [1;2;3;4;5;1] 6 0 []] ++ repeat Step 9.
 Definition ex_fresh : list op := Submit [1;2;3;4;5;1] 6 0 [] :: repeat Step 9.
 Example C07_example_fork_overflow :
-  In (EvSubmit 1 [1;2;3;4;5;1] 0) (log (run (hash_vis 6) ex_cfg (init 2) ex_ops)) /\
-  In (EvSubmit 0 [1;2;3;4;5;1] 0) (log (run (hash_vis 6) ex_cfg (init 1) ex_fresh)) /\
+  In (EvSubmit 1 [1;2;3;4;5;1] 0 6 []) (log (run (hash_vis 6) ex_cfg (init 2) ex_ops)) /\
+  In (EvSubmit 0 [1;2;3;4;5;1] 0 6 []) (log (run (hash_vis 6) ex_cfg (init 1) ex_fresh)) /\
   map fst (samples_of 1 (log (run (hash_vis 6) ex_cfg (init 2) ex_ops))) = [3;1;3;5;4;1] /\
   map fst (samples_of 0 (log (run (hash_vis 6) ex_cfg (init 1) ex_fresh))) = [3;1;3;5;4;1] /\
+  In (EvDone 1 DoneLength) (log (run (hash_vis 6) ex_cfg (init 2) ex_ops)) /\
+  In (EvDone 0 DoneLength) (log (run (hash_vis 6) ex_cfg (init 1) ex_fresh)) /\
   (* the fork's shift failed: its inputs were emptied and reprocessed *)
   s_inputs (nth_slot (slots (run (hash_vis 6) ex_cfg (init 2) (firstn 8 ex_ops))) 1) = [].
-Proof. vm_compute. repeat split; auto. Qed.
+Proof. vm_compute. repeat split; auto; repeat (try (left; reflexivity); right). Qed.
 
 (** what the repair changed: on the same cache state the pinned reset Remove(seq, 0, -1) leaves the fork's sequence
     populated (its first cell is shared, so the scan stops at once) while slot.Inputs is emptied; the repaired reset
